@@ -430,6 +430,9 @@ let small_scopes : scen list =
     { base with items = [ Target 1; ConnUp (11, 1); Change ([ (1, 11) ], true); Change ([ (1, 21) ], false); Change ([ (1, 31) ], false) ] };
     (* a serializable change and two changes while the device stays away *)
     { base with items = [ Target 1; Change ([ (1, 11) ], true); Change ([ (1, 21) ], false); Change ([ (1, 31) ], false) ] };
+    (* a serializable change on two targets with a different follower on each, committed while the devices are away *)
+    { base with items = [ Target 1; Target 2; Change ([ (1, 11); (2, 12) ], true); Change ([ (1, 21) ], false); Change ([ (2, 32) ], false);
+                          ConnUp (11, 1); ConnUp (12, 2) ] };
     (* change, rollback of it, change *)
     { base with items = [ Target 1; ConnUp (11, 1); Change ([ (1, 11) ], false); Rollback 1; Change ([ (1, 31) ], false) ] };
   ]
